@@ -310,10 +310,6 @@ fn roundtrip<B0: ProofBuild, B1: ProofBuild, B2: ProofBuild>(
 	Ok(proof)
 }
 
-/// signature of the one failure class that is checked but, when listed as an
-/// open known finding, does not stop the exploration of the other cases
-const SIG_VK_ZERO: &str = "viewkey-zero-amount-err";
-
 pub fn check_proof(ctx: &Ctx, c: &ProofCase, counting: bool) -> PResult {
 	let ev = &ctx.ev;
 	let seed = unhex(&c.seed)?;
@@ -393,24 +389,15 @@ pub fn check_proof(ctx: &Ctx, c: &ProofCase, counting: bool) -> PResult {
 					ensure!(got == want, "viewkey-rewind-mismatch", "view key (depth {}) rewinds to {} instead of {}", vd, triple_str(&got), triple_str(&want));
 					vk_class = "viewkey_recovered";
 				}
-				(true, Err(e)) if amount == 0 => {
-					// ViewKey::commit builds the value part as commit_value(amount).to_pubkey(), which
-					// does not exist for amount 0 (point at infinity): view_key.rs:170
-					let msg = format!(
-						"matching view key (depth {}) fails on a zero-value output instead of recovering {}: rewind -> {:?}; ViewKey::commit(0) -> {:?}",
-						vd,
-						triple_str(&want),
-						e,
-						vk.commit(secp, 0, switch).map(|_| ())
-					);
-					if !ctx.is_known(SIG_VK_ZERO) {
-						fail!(SIG_VK_ZERO, "{}", msg);
-					}
-					if counting {
-						ctx.report("proof", SIG_VK_ZERO, serde_json::to_value(c).unwrap(), &msg);
-					}
-					vk_class = "viewkey_zero_amount_err(known finding)";
-				}
+				// regression signature of the repaired defect (ViewKey::commit(0), fix eecf4abf0)
+				(true, Err(e)) if amount == 0 => fail!(
+					"viewkey-zero-amount-err",
+					"matching view key (depth {}) fails on a zero-value output instead of recovering {}: rewind -> {:?}; ViewKey::commit(0) -> {:?}",
+					vd,
+					triple_str(&want),
+					e,
+					vk.commit(secp, 0, switch).map(|_| ())
+				),
 				(true, r) => fail!("viewkey-rewind-failed", "matching view key (depth {}, from_priv {}) did not recover {}: {:?}", vd, c.vk_from_priv, triple_str(&want), r.map(|o| o.map(|t| triple_str(&t)))),
 				(false, Ok(Some(got))) => {
 					ensure!(got == want, "viewkey-rewind-mismatch", "view key (depth {}) rewinds to {} instead of {}", vd, triple_str(&got), triple_str(&want));
@@ -438,6 +425,9 @@ pub fn check_proof(ctx: &Ctx, c: &ProofCase, counting: bool) -> PResult {
 		ev.class(if c.switch_regular { "proof_switch:regular" } else { "proof_switch:none" });
 		ev.class(if c.legacy { "proof_builder:legacy" } else { "proof_builder:new" });
 		ev.class(vk_class);
+		if vk_class == "viewkey_recovered" && amount == 0 {
+			ev.class("viewkey_recovered_zero_amount");
+		}
 		if vk_class == "viewkey_recovered" && c.vk_depth.min(depth) > 0 {
 			ev.class("viewkey_recovered_child_key");
 		}
@@ -447,7 +437,6 @@ pub fn check_proof(ctx: &Ctx, c: &ProofCase, counting: bool) -> PResult {
 		if depth >= 2 && amount != 0 {
 			ev.nontrivial(&("proof", depth, hardened_mask(depth, &c.path), amount_class(amount), c.switch_regular, c.legacy));
 		}
-		ev.sample("proof", || serde_json::to_value(c).unwrap());
 	}
 	Ok(())
 }
@@ -750,7 +739,6 @@ fn check_arith_kc(ctx: &Ctx, kc: &ExtKeychain, c: &ArithCase, counting: bool) ->
 		if pos.len() + neg.len() + ids.len() >= 3 {
 			ev.class("arith_sum_3plus_operands");
 		}
-		ev.sample("arith", || serde_json::to_value(c).unwrap());
 	}
 	Ok(())
 }
@@ -1055,9 +1043,6 @@ pub fn check_builder(ctx: &Ctx, c: &BuilderCase, counting: bool) -> PResult {
 			}).collect();
 			ev.nontrivial(&("builder", c.kind, ins.len(), cls, hard, c.legacy, c.lock_height != 0));
 		}
-		ev.sample("builder", || {
-			json!({"case": serde_json::to_value(c).unwrap(), "derived_input_values": ins.iter().map(|e| e.value).collect::<Vec<_>>(), "output_values": outs.iter().map(|e| e.value).collect::<Vec<_>>(), "fee": fee})
-		});
 	}
 	Ok(())
 }
@@ -1160,7 +1145,6 @@ pub fn check_reward(ctx: &Ctx, c: &RewardCase, counting: bool) -> PResult {
 		if depth >= 2 {
 			ev.nontrivial(&("reward", depth, hardened_mask(depth, &c.path), amount_class(value), c.legacy, c.test_mode));
 		}
-		ev.sample("reward", || serde_json::to_value(c).unwrap());
 	}
 	Ok(())
 }
@@ -1178,8 +1162,18 @@ pub fn run(ctx: &Ctx) -> HResult<()> {
 	ev.assume("key ids handed to the builder are pairwise distinct (a duplicate commitment is a double spend and is silently dropped by with_input/with_output); the builder always uses the regular switch; fees are 1..2^40-1 (FeeFields)");
 	ev.assume("a bit-flipped proof may rewind to an identifier that differs only in words beyond its depth (they do not influence the key); only (amount, switch, depth, words below depth) are compared there");
 	ev.assume("a proof of value 2^64-1 is inside the domain: bullet_proof proves 64 bits and never returns an error");
-	ev.assume("zero-value outputs are inside the view-key domain; their failure has its own signature viewkey-zero-amount-err: if that is listed as an open known finding the cases are counted in excluded_known and the exploration continues, otherwise it is reported as a violation");
+	ev.assume("zero-value outputs are inside the view-key domain (repaired defect, regression signature viewkey-zero-amount-err)");
 	let threads = 16;
+	// libsecp's shared bulletproof generators are created lazily through an
+	// unsynchronised `static mut` (secp256k1zkp pedersen.rs:43): create them
+	// here, before any worker thread can race on the first proof
+	{
+		let kc = keychain(b"gv c20 generator warm-up seed").map_err(|f| HarnessError(f.msg))?;
+		let id = key_id(0, &[]);
+		let cm = kc.commit(1, &id, SwitchCommitmentType::None)?;
+		let p = proof::create(&kc, &ProofBuilder::new(&kc), 1, &id, SwitchCommitmentType::None, cm, None)?;
+		proof::verify(kc.secp(), cm, p, None)?;
+	}
 
 	let t0 = std::time::Instant::now();
 	let fl = pbt_par(ctx, "proof", ctx.n(800, 16_000), threads, proof_strategy, init_thread, |c, counting| check_proof(ctx, c, counting));
@@ -1206,6 +1200,16 @@ pub fn run(ctx: &Ctx) -> HResult<()> {
 	}
 	ev.extra("wall_s_arith", json!(t0.elapsed().as_secs_f64()));
 
+	// samples are drawn from derived seeds so that they do not depend on thread scheduling
+	ev.sample("proof", || serde_json::to_value(sample_one(ctx.derive_seed("sample", 0), &proof_strategy())).unwrap());
+	ev.sample("builder", || {
+		let c = sample_one(ctx.derive_seed("sample", 1), &builder_strategy());
+		let (ins, outs, fee) = plan(&c);
+		json!({"case": serde_json::to_value(&c).unwrap(), "derived_input_values": ins.iter().map(|e| e.value).collect::<Vec<_>>(), "output_values": outs.iter().map(|e| e.value).collect::<Vec<_>>(), "fee": fee})
+	});
+	ev.sample("reward", || serde_json::to_value(sample_one(ctx.derive_seed("sample", 2), &reward_strategy())).unwrap());
+	ev.sample("arith", || serde_json::to_value(sample_one(ctx.derive_seed("sample", 3), &arith_strategy())).unwrap());
+
 	for cl in [
 		"proof_amount:0",
 		"proof_amount:1",
@@ -1219,6 +1223,7 @@ pub fn run(ctx: &Ctx) -> HResult<()> {
 		"proof_builder:legacy",
 		"viewkey_recovered",
 		"viewkey_recovered_child_key",
+		"viewkey_recovered_zero_amount",
 		"builder_two_party",
 		"arith_sum_zero_rejected",
 	] {
